@@ -449,4 +449,847 @@ Section WithHash.
     - apply Hfr. rewrite H. exact Hne.
   Qed.
 
+
+  (* ---------------------------------------------------------------- settlement: shape of provenance *)
+  (* whatever settle's loop does to provenance is: append entries to the target lane *)
+  Definition pv_ext (target : lane) (pv pv2 : prov) : Prop :=
+    pv_shells pv2 = pv_shells pv /\ pv_plural_index pv2 = pv_plural_index pv /\
+    (pv_lanes pv2 = pv_lanes pv \/
+     exists h extra, alookup target (pv_lanes pv) = Some h /\
+       pv_lanes pv2 = aupdate target (mkHistory (h_init h) (h_entries h ++ extra)) (pv_lanes pv)).
+
+  Lemma pv_ext_refl target pv : pv_ext target pv pv.
+  Proof. repeat split; auto. Qed.
+
+  Lemma pv_ext_trans target a b c : pv_ext target a b -> pv_ext target b c -> pv_ext target a c.
+  Proof.
+    intros (S1 & P1 & L1) (S2 & P2 & L2). repeat split; try congruence.
+    destruct L1 as [L1|(h & ex & Hh & L1)]; destruct L2 as [L2|(h2 & ex2 & Hh2 & L2)].
+    - left; congruence.
+    - right. exists h2, ex2. rewrite <- L1. auto.
+    - right. exists h, ex. split; [exact Hh|congruence].
+    - right. rewrite L1 in Hh2. rewrite (alookup_aupdate_same _ _ _ _ Hh) in Hh2.
+      inversion Hh2; subst h2. cbn in L2.
+      exists h, (ex ++ ex2). split; [exact Hh|].
+      rewrite L2, L1, aupdate_aupdate, app_assoc. reflexivity.
+  Qed.
+
+  Lemma append_recorded_ext w target k p er w2 r :
+    append_recorded w target k p er = (w2, r) -> pv_ext target (snd w) (snd w2) .
+  Proof.
+    destruct w as [rt pv]. unfold Strand.append_recorded. cbn [fst snd].
+    destruct (alookup target (pv_lanes pv)) as [h|] eqn:Eh.
+    2:{ intros H; inversion H; subst; apply pv_ext_refl. }
+    destruct (alookup target (rt_lanes rt)) as [fr|] eqn:Efr.
+    2:{ intros H; inversion H; subst; apply pv_ext_refl. }
+    destruct (apply_ops (f_state fr) (p_ops p)) as [st'|].
+    2:{ intros H; inversion H; subst; apply pv_ext_refl. }
+    destruct (negb (N.eqb (root_of st') er)).
+    { intros H; inversion H; subst; apply pv_ext_refl. }
+    destruct (negb (N.eqb (f_tick fr) (lenN (h_entries h)))).
+    { intros H; inversion H; subst; apply pv_ext_refl. }
+    destruct (is_local k).
+    { intros H; inversion H; subst; apply pv_ext_refl. }
+    destruct (N.eqb (f_tick fr) u64max); intros H; inversion H; subst; cbn [snd];
+      (repeat split; auto; right; eexists; eexists; split; [exact Eh|reflexivity]).
+  Qed.
+
+  Lemma advance_gtick_snd w w1 r : advance_gtick w = (w1, r) -> snd w1 = snd w.
+  Proof.
+    destruct w as [rt pv]. unfold advance_gtick. destruct (N.eqb (rt_gtick rt) u64max);
+      intros H; inversion H; reflexivity.
+  Qed.
+
+  Lemma settle_one_ext target w d w1 r : settle_one target w d = (w1, r) -> pv_ext target (snd w) (snd w1).
+  Proof.
+    unfold Strand.settle_one. destruct (advance_gtick w) as [w0 [g|e]] eqn:Eg.
+    2:{ intros H; inversion H; subst. rewrite (advance_gtick_snd _ _ _ Eg). apply pv_ext_refl. }
+    rewrite <- (advance_gtick_snd _ _ _ Eg).
+    destruct d as [src hd op er rv|art src why rv|pid src sl pol].
+    - destruct src as [[sl stick] c].
+      destruct (option_map (fun es => nthN es stick) (entries_of (snd w0) sl)) as [[se|]|].
+      + destruct (e_patch se) as [p|].
+        * destruct (append_recorded w0 target (KImport sl stick op) p er) as [w2 [r2|e2]] eqn:Ea;
+            intros H; inversion H; subst; eapply append_recorded_ext; exact Ea.
+        * intros H; inversion H; subst; apply pv_ext_refl.
+      + intros H; inversion H; subst; apply pv_ext_refl.
+      + intros H; inversion H; subst; apply pv_ext_refl.
+    - destruct (current_root Hroot w0 target) as [root|].
+      + destruct (append_recorded w0 target (KConflict art) empty_patch root) as [w2 [r2|e2]] eqn:Ea;
+          intros H; inversion H; subst; eapply append_recorded_ext; exact Ea.
+      + intros H; inversion H; subst; apply pv_ext_refl.
+    - destruct (current_root Hroot w0 target) as [root|].
+      + destruct (append_recorded w0 target (KPlural pid) empty_patch root) as [w2 [r2|e2]] eqn:Ea;
+          intros H; inversion H; subst; eapply append_recorded_ext; exact Ea.
+      + intros H; inversion H; subst; apply pv_ext_refl.
+  Qed.
+
+  Lemma settle_loop_ext target ds : forall w acc w1 r,
+    settle_loop target w ds acc = (w1, r) -> pv_ext target (snd w) (snd w1).
+  Proof.
+    induction ds as [|d ds IH]; cbn; intros w acc w1 r H.
+    - inversion H; subst; apply pv_ext_refl.
+    - destruct (settle_one target w d) as [w0 [x|e]] eqn:E1.
+      + eapply pv_ext_trans; [eapply settle_one_ext; exact E1|eapply IH; exact H].
+      + inversion H; subst. eapply settle_one_ext; exact E1.
+  Qed.
+
+  Lemma restore_ext target pv pv2 h :
+    pv_ext target pv pv2 -> alookup target (pv_lanes pv) = Some h ->
+    restore pv2 (mkCk target (lenN (h_entries h)) (map fst (pv_shells pv)) (map fst (pv_plural_index pv))) = pv.
+  Proof.
+    intros (S & P & L) Hh. unfold restore. cbn [ck_lane ck_len ck_shells ck_plurals].
+    rewrite S, P, !filter_own_keys.
+    assert (Hl : match alookup target (pv_lanes pv2) with
+                 | Some h0 => aupdate target (mkHistory (h_init h0) (firstnN (lenN (h_entries h)) (h_entries h0))) (pv_lanes pv2)
+                 | None => pv_lanes pv2
+                 end = pv_lanes pv).
+    { destruct L as [L|(h' & ex & Hh' & L)].
+      - rewrite L, Hh. unfold firstnN, lenN. rewrite Nnat.Nat2N.id, firstn_all.
+        destruct h; cbn. apply aupdate_id; exact Hh.
+      - rewrite Hh in Hh'; inversion Hh'; subst h'.
+        rewrite L. rewrite (alookup_aupdate_same _ _ _ _ Hh). cbn [h_init h_entries].
+        rewrite firstnN_app_len, aupdate_aupdate. destruct h; cbn. apply aupdate_id; exact Hh. }
+    destruct pv as [lanes shells idx]; cbn in *. f_equal. exact Hl.
+  Qed.
+
+  (* settle_atomic: a failed settlement leaves runtime and provenance exactly as they were *)
+  Lemma settle_atomic_lemma w sid pol e :
+    snd (settle w sid pol) = Err e -> fst (settle w sid pol) = w.
+  Proof.
+    unfold Strand.settle. destruct (plan w sid pol) as [pl|e0]; [|reflexivity].
+    destruct (pl_decisions pl) as [|d ds] eqn:Ed; [cbn; discriminate|].
+    unfold checkpoint_for.
+    destruct (alookup (pl_target pl) (pv_lanes (snd w))) as [h|] eqn:Eh; cbn [option_map]; [|reflexivity].
+    destruct (settle_loop (pl_target pl) w (d :: ds) []) as [w1 [refs|e1]] eqn:El.
+    - destruct (append_shell (snd w1) _) as [pv2|e2]; cbn [fst snd]; [discriminate|].
+      intros _. rewrite (restore_ext _ _ _ _ (settle_loop_ext _ _ _ _ _ _ El) Eh). destruct w; reflexivity.
+    - cbn [fst snd]. intros _.
+      rewrite (restore_ext _ _ _ _ (settle_loop_ext _ _ _ _ _ _ El) Eh). destruct w; reflexivity.
+  Qed.
+
+
+  (* ---------------------------------------------------------------- plan: one step *)
+  Definition entry_overlap (bo : option (list slot)) (p : patch) : list slot :=
+    match bo with Some sl => overlap_for_patch p sl | None => [] end.
+
+  (* a step either imports (only when nothing blocked so far, the patch replays on the simulated
+     state, and the overlapping slots -- if any -- come out unchanged) or leaves the simulated
+     state alone and latches a reason *)
+  Lemma plan_step_cases pol target aa bm bo sim blocked e d sim' b' :
+    plan_step pol target aa bm bo sim blocked e = (d, sim', b') ->
+    (exists p cand rv,
+        blocked = None /\ e_patch e = Some p /\ apply_ops sim (p_ops p) = Some cand /\
+        d = DImport (e_ref e) (e_head e) (e_commit e) (root_of cand) rv /\ sim' = cand /\ b' = None /\
+        (entry_overlap bo p = [] \/ overlap_clean sim cand (entry_overlap bo p) = true)) \/
+    (sim' = sim /\ b' <> None /\ decision_tag d <> 1).
+  Proof.
+    unfold Strand.plan_step, entry_overlap. cbv zeta.
+    destruct blocked as [r|].
+    { intros H; inversion H; subst. right. repeat split; [discriminate|cbn; discriminate]. }
+    destruct (aa && bm).
+    { intros H; inversion H; subst. right. repeat split; [discriminate|cbn; discriminate]. }
+    destruct (negb (is_local (e_kind e))).
+    { intros H; inversion H; subst. right. repeat split; [discriminate|cbn; discriminate]. }
+    destruct (e_patch e) as [p|].
+    2:{ intros H; inversion H; subst. right. repeat split; [discriminate|cbn; discriminate]. }
+    destruct (apply_ops sim (p_ops p)) as [cand|] eqn:Ea.
+    2:{ destruct (match bo with Some sl => overlap_for_patch p sl | None => [] end);
+          intros H; inversion H; subst; right; (repeat split; [discriminate|cbn; discriminate]). }
+    destruct (aa && negb (N.eqb (Strand.root_of Hroot cand) (e_root e))).
+    { intros H; inversion H; subst. right. repeat split; [discriminate|cbn; discriminate]. }
+    destruct (match bo with Some sl => overlap_for_patch p sl | None => [] end) as [|o ov] eqn:Eov.
+    { intros H; injection H as Hd Hs Hb; subst d sim' b'. left. exists p, cand, None. repeat split; auto. }
+    destruct (overlap_clean sim cand (o :: ov)) eqn:Ec.
+    { intros H; injection H as Hd Hs Hb; subst d sim' b'. left. exists p, cand, (Some (RClean (o :: ov))). repeat split; auto. right. rewrite Eov. exact Ec. }
+    destruct (pol_plural pol); intros H; inversion H; subst; right;
+      (repeat split; [discriminate|cbn; discriminate]).
+  Qed.
+
+  (* once a reason is latched every later entry is residue and the simulated state is frozen *)
+  Lemma plan_step_blocked pol target aa bm bo sim r e :
+    exists d, plan_step pol target aa bm bo sim (Some r) e = (d, sim, Some r) /\ decision_tag d = 2.
+  Proof. unfold Strand.plan_step. cbv zeta. eexists. split; reflexivity. Qed.
+
+  (* the simulated state at the end of the fold *)
+  Fixpoint plan_sim (pol : policy) (target : lane) (aa bm : bool) (bo : option (list slot))
+           (sim : state) (blocked : option reason) (sfx : list entry) : state :=
+    match sfx with
+    | [] => sim
+    | e :: r => let '(_, sim', b') := plan_step pol target aa bm bo sim blocked e in
+                plan_sim pol target aa bm bo sim' b' r
+    end.
+
+  Definition n_imports (ds : list decision) : nat := length (filter (fun d => N.eqb (decision_tag d) 1) ds).
+
+  Lemma plan_blocked_tail pol target aa bm bo sfx : forall sim r,
+    plan_sim pol target aa bm bo sim (Some r) sfx = sim /\
+    n_imports (plan_rec pol target aa bm bo sim (Some r) sfx) = 0%nat.
+  Proof.
+    induction sfx as [|e sfx IH]; intros sim r; cbn [plan_sim Strand.plan_rec]; [split; reflexivity|].
+    destruct (plan_step_blocked pol target aa bm bo sim r e) as [d [Hd Ht]]. rewrite Hd.
+    destruct (IH sim r) as [H1 H2]. split; [exact H1|].
+    unfold n_imports in *. cbn [filter]. rewrite Ht. cbn. exact H2.
+  Qed.
+
+  (* never_overwrite, on the plan: a slot the parent wrote since the fork comes out of the whole
+     fold with the value it went in with *)
+  Lemma plan_sim_preserves pol target aa bm bo x sfx : forall sim blocked,
+    (forall e p, In e sfx -> e_patch e = Some p -> memN x (p_out p) = true ->
+       match bo with Some ovl => memN x ovl = true | None => False end) ->
+    (forall e p, In e sfx -> e_patch e = Some p -> In x (patch_writes p) -> memN x (p_out p) = true) ->
+    sget (plan_sim pol target aa bm bo sim blocked sfx) x = sget sim x.
+  Proof.
+    induction sfx as [|e sfx IH]; intros sim blocked Hbo Hhon; cbn [plan_sim]; [reflexivity|].
+    destruct (plan_step pol target aa bm bo sim blocked e) as [[d sim'] b'] eqn:Es.
+    assert (Hstep : sget sim' x = sget sim x).
+    { destruct (plan_step_cases _ _ _ _ _ _ _ _ _ _ _ Es)
+        as [(p & cand & rv & Hb & Hp & Ha & Hd & Hs & Hb' & Hov)|(Hs & _)]; [|subst; reflexivity].
+      subst sim'. destruct (memN x (p_out p)) eqn:Eo.
+      - specialize (Hbo e p (or_introl eq_refl) Hp Eo).
+        destruct bo as [ovl|]; [|contradiction].
+        assert (Hin : In x (entry_overlap (Some ovl) p)).
+        { unfold entry_overlap, overlap_for_patch. apply filter_In. split; [apply memN_in; exact Hbo|].
+          rewrite Eo. apply orb_true_r. }
+        destruct Hov as [Hnil|Hclean]; [rewrite Hnil in Hin; destruct Hin|].
+        eapply overlap_clean_spec; eauto.
+      - eapply apply_ops_frame; [exact Ha|]. intro Hin.
+        specialize (Hhon e p (or_introl eq_refl) Hp Hin). congruence. }
+    rewrite IH; [exact Hstep| |].
+    - intros e0 p0 Hin; apply Hbo; right; exact Hin.
+    - intros e0 p0 Hin; apply Hhon; right; exact Hin.
+  Qed.
+
+  (* the strand's own replay of a list of entries *)
+  Fixpoint apply_entries (st : state) (es : list entry) : option state :=
+    match es with
+    | [] => Some st
+    | e :: r => match e_patch e with
+                | None => None
+                | Some p => match apply_ops st (p_ops p) with
+                            | Some st' => apply_entries st' r
+                            | None => None
+                            end
+                end
+    end.
+
+  (* import_takes_strand_values, on the plan: where the simulated state and the strand's fork state
+     agree on a slot, the end of the fold agrees with the strand's state after the imported prefix *)
+  Lemma plan_sim_agrees pol target aa bm bo x sfx : forall sim blocked cst0 cstn,
+    sget sim x = sget cst0 x ->
+    apply_entries cst0 (firstn (n_imports (plan_rec pol target aa bm bo sim blocked sfx)) sfx) = Some cstn ->
+    sget (plan_sim pol target aa bm bo sim blocked sfx) x = sget cstn x.
+  Proof.
+    induction sfx as [|e sfx IH]; intros sim blocked cst0 cstn Hag Hre; cbn [plan_sim Strand.plan_rec] in *.
+    - cbn in Hre. inversion Hre; subst; exact Hag.
+    - destruct (plan_step pol target aa bm bo sim blocked e) as [[d sim'] b'] eqn:Es.
+      destruct (plan_step_cases _ _ _ _ _ _ _ _ _ _ _ Es)
+        as [(p & cand & rv & Hb & Hp & Ha & Hd & Hs & Hb' & Hov)|(Hs & Hb' & Ht)].
+      + subst d sim' b'. unfold n_imports in Hre. cbn [filter decision_tag N.eqb Pos.eqb length firstn] in Hre.
+        cbn [apply_entries] in Hre. rewrite Hp in Hre.
+        destruct (apply_ops cst0 (p_ops p)) as [c1|] eqn:Ec; [|discriminate].
+        eapply IH; [|exact Hre]. eapply apply_ops_agree; eauto.
+      + subst sim'. destruct b' as [r|]; [|congruence].
+        destruct (plan_blocked_tail pol target aa bm bo sfx sim r) as [H1 H2].
+        rewrite H1. unfold n_imports in Hre, H2. cbn [filter] in Hre.
+        destruct (N.eqb (decision_tag d) 1) eqn:Et; [apply N.eqb_eq in Et; contradiction|].
+        rewrite H2 in Hre. cbn in Hre. inversion Hre; subst. exact Hag.
+  Qed.
+
+  (* ---------------------------------------------------------------- settle follows the plan *)
+  Lemma append_recorded_ok w target k p er w2 r :
+    append_recorded w target k p er = (w2, Ok r) ->
+    exists fr h st' e,
+      alookup target (rt_lanes (fst w)) = Some fr /\ alookup target (pv_lanes (snd w)) = Some h /\
+      apply_ops (f_state fr) (p_ops p) = Some st' /\ root_of st' = er /\
+      e_patch e = Some p /\ e_root e = root_of st' /\ e_kind e = k /\ e_lane e = target /\
+      e_tick e = lenN (h_entries h) /\ f_tick fr = lenN (h_entries h) /\ r = e_ref e /\
+      fst w2 = mkRuntime (aupdate target (mkFrontier (f_init fr) st' (f_tick fr + 1)) (rt_lanes (fst w)))
+                         (rt_heads (fst w)) (rt_strands (fst w)) (rt_gtick (fst w)) /\
+      snd w2 = mkProv (aupdate target (mkHistory (h_init h) (h_entries h ++ [e])) (pv_lanes (snd w)))
+                      (pv_shells (snd w)) (pv_plural_index (snd w)).
+  Proof.
+    destruct w as [rt pv]. unfold Strand.append_recorded. cbn [fst snd].
+    destruct (alookup target (pv_lanes pv)) as [h|] eqn:Eh; [|intros H; inversion H].
+    destruct (alookup target (rt_lanes rt)) as [fr|] eqn:Efr; [|intros H; inversion H].
+    destruct (apply_ops (f_state fr) (p_ops p)) as [st'|] eqn:Ea; [|intros H; inversion H].
+    destruct (N.eqb (root_of st') er) eqn:Er; cbn [negb]; [|intros H; inversion H].
+    destruct (N.eqb (f_tick fr) (lenN (h_entries h))) eqn:Et; cbn [negb]; [|intros H; inversion H].
+    destruct (is_local k); [intros H; inversion H|].
+    destruct (N.eqb (f_tick fr) u64max); [intros H; inversion H|].
+    intros H; inversion H; subst. cbn [fst snd].
+    apply N.eqb_eq in Er. apply N.eqb_eq in Et.
+    do 4 eexists. repeat split; try reflexivity; auto.
+  Qed.
+
+  Lemma advance_gtick_ok w w1 g :
+    advance_gtick w = (w1, Ok g) ->
+    snd w1 = snd w /\ rt_lanes (fst w1) = rt_lanes (fst w) /\ rt_heads (fst w1) = rt_heads (fst w) /\
+    rt_strands (fst w1) = rt_strands (fst w).
+  Proof.
+    destruct w as [rt pv]. unfold advance_gtick. destruct (N.eqb (rt_gtick rt) u64max);
+      intros H; inversion H; subst; cbn; auto.
+  Qed.
+
+  (* what one successfully executed decision does to the target lane; everything else is framed *)
+  Definition target_step (target : lane) (w w2 : world) (fr : frontier) (h : history)
+             (ops : list op) (st' : state) (e : entry) : Prop :=
+    apply_ops (f_state fr) ops = Some st' /\
+    e_root e = root_of st' /\ (exists p, e_patch e = Some p /\ p_ops p = ops) /\
+    e_lane e = target /\ e_tick e = lenN (h_entries h) /\
+    alookup target (rt_lanes (fst w2)) = Some (mkFrontier (f_init fr) st' (f_tick fr + 1)) /\
+    alookup target (pv_lanes (snd w2)) = Some (mkHistory (h_init h) (h_entries h ++ [e])) /\
+    (forall l, l <> target -> alookup l (rt_lanes (fst w2)) = alookup l (rt_lanes (fst w)) /\
+                             alookup l (pv_lanes (snd w2)) = alookup l (pv_lanes (snd w))) /\
+    rt_strands (fst w2) = rt_strands (fst w) /\ rt_heads (fst w2) = rt_heads (fst w).
+
+  Lemma settle_one_ok target w d w2 x fr h :
+    settle_one target w d = (w2, Ok x) ->
+    alookup target (rt_lanes (fst w)) = Some fr -> alookup target (pv_lanes (snd w)) = Some h ->
+    exists ops st' e, target_step target w w2 fr h ops st' e /\
+      match d with
+      | DImport src _ _ _ _ =>
+          exists es se p, entries_of (snd w) (fst (fst src)) = Some es /\ nthN es (snd (fst src)) = Some se /\
+                          e_patch se = Some p /\ ops = p_ops p
+      | _ => ops = []
+      end.
+  Proof.
+    unfold Strand.settle_one. intros H Hfr Hh.
+    destruct (advance_gtick w) as [w0 [g|e0]] eqn:Eg; [|inversion H].
+    destruct (advance_gtick_ok _ _ _ Eg) as (Hs0 & Hl0 & Hh0 & Hst0).
+    assert (Hfr0 : alookup target (rt_lanes (fst w0)) = Some fr) by (rewrite Hl0; exact Hfr).
+    assert (Hhh0 : alookup target (pv_lanes (snd w0)) = Some h) by (rewrite Hs0; exact Hh).
+    assert (Hfin : forall k p er r, append_recorded w0 target k p er = (w2, Ok r) ->
+                   exists st' e, target_step target w w2 fr h (p_ops p) st' e).
+    { intros k p er r Ha.
+      destruct (append_recorded_ok _ _ _ _ _ _ _ Ha)
+        as (fr' & h' & st' & e & A1 & A2 & A3 & A4 & A5 & A6 & A7 & A8 & A9 & A10 & A11 & A12 & A13).
+      rewrite Hfr0 in A1; inversion A1; subst fr'. rewrite Hhh0 in A2; inversion A2; subst h'.
+      exists st', e. unfold target_step. rewrite A12, A13. cbn [fst snd rt_lanes pv_lanes rt_strands rt_heads].
+      rewrite Hl0, Hs0, Hh0, Hst0.
+      repeat split; auto.
+      - exists p; auto.
+      - eapply alookup_aupdate_same; exact Hfr.
+      - eapply alookup_aupdate_same; exact Hh.
+      - apply alookup_aupdate_other; exact H0.
+      - apply alookup_aupdate_other; exact H0. }
+    destruct d as [src hd op er rv|art src why rv|pid src sl pol].
+    - destruct src as [[sl stick] c]. cbn [fst snd].
+      destruct (entries_of (snd w0) sl) as [es|] eqn:Ees; cbn [option_map] in H; [|inversion H].
+      destruct (nthN es stick) as [se|] eqn:Ese; [|inversion H].
+      destruct (e_patch se) as [p|] eqn:Ep; [|inversion H].
+      destruct (append_recorded w0 target (KImport sl stick op) p er) as [w3 [r|e3]] eqn:Ea; inversion H; subst.
+      destruct (Hfin _ _ _ _ Ea) as (st' & e & Hts).
+      exists (p_ops p), st', e. split; [exact Hts|]. exists es, se, p. rewrite <- Hs0. auto.
+    - destruct (current_root Hroot w0 target) as [root|]; [|inversion H].
+      destruct (append_recorded w0 target (KConflict art) empty_patch root) as [w3 [r|e3]] eqn:Ea; inversion H; subst.
+      destruct (Hfin _ _ _ _ Ea) as (st' & e & Hts). exists [], st', e. split; [exact Hts|reflexivity].
+    - destruct (current_root Hroot w0 target) as [root|]; [|inversion H].
+      destruct (append_recorded w0 target (KPlural pid) empty_patch root) as [w3 [r|e3]] eqn:Ea; inversion H; subst.
+      destruct (Hfin _ _ _ _ Ea) as (st' & e & Hts). exists [], st', e. split; [exact Hts|reflexivity].
+  Qed.
+
+  (* entries sit at their own coordinates *)
+  Definition coherent (l : lane) (es : list entry) : Prop :=
+    forall i e, nthN es i = Some e -> e_lane e = l /\ e_tick e = i.
+
+  Lemma coherent_snoc l es e :
+    coherent l es -> e_lane e = l -> e_tick e = lenN es -> coherent l (es ++ [e]).
+  Proof.
+    intros Hc Hl Ht i e0 Hn. unfold nthN in *.
+    destruct (Nat.lt_ge_cases (N.to_nat i) (length es)) as [Hlt|Hge].
+    - rewrite nth_error_app1 in Hn by exact Hlt. apply Hc; exact Hn.
+    - rewrite nth_error_app2 in Hn by exact Hge.
+      destruct (N.to_nat i - length es)%nat as [|k] eqn:Ek; cbn in Hn.
+      + inversion Hn; subst e0. split; [exact Hl|]. rewrite Ht. unfold lenN. lia.
+      + destruct k; discriminate.
+  Qed.
+
+  Lemma replay_entries_app st es1 es2 st1 :
+    replay_entries st es1 = Some st1 -> replay_entries st (es1 ++ es2) = replay_entries st1 es2.
+  Proof.
+    revert st. induction es1 as [|e r IH]; cbn; intros st H; [inversion H; reflexivity|].
+    destruct (e_patch e) as [p|]; [|discriminate].
+    destruct (apply_ops st (p_ops p)) as [st'|]; [|discriminate].
+    destruct (N.eqb (Strand.root_of Hroot st') (e_root e)); [|discriminate].
+    apply IH; exact H.
+  Qed.
+
+  (* parent_stays_verifiable, on the loop: the entries a successful loop appends replay from the
+     old frontier state to the new one (recorded roots included); other lanes are framed *)
+  Lemma settle_loop_ok target ds : forall w acc w1 refs fr h,
+    settle_loop target w ds acc = (w1, Ok refs) ->
+    alookup target (rt_lanes (fst w)) = Some fr -> alookup target (pv_lanes (snd w)) = Some h ->
+    exists fr1 extra,
+      alookup target (rt_lanes (fst w1)) = Some fr1 /\
+      alookup target (pv_lanes (snd w1)) = Some (mkHistory (h_init h) (h_entries h ++ extra)) /\
+      f_init fr1 = f_init fr /\ f_tick fr1 = f_tick fr + lenN extra /\ lenN extra = lenN ds /\
+      replay_entries (f_state fr) extra = Some (f_state fr1) /\
+      (forall l, l <> target -> alookup l (rt_lanes (fst w1)) = alookup l (rt_lanes (fst w)) /\
+                               alookup l (pv_lanes (snd w1)) = alookup l (pv_lanes (snd w))) /\
+      rt_strands (fst w1) = rt_strands (fst w) /\ rt_heads (fst w1) = rt_heads (fst w) /\
+      (coherent target (h_entries h) -> coherent target (h_entries h ++ extra)).
+  Proof.
+    induction ds as [|d ds IH]; cbn [Strand.settle_loop]; intros w acc w1 refs fr h H Hfr Hh.
+    - inversion H; subst. exists fr, []. rewrite app_nil_r. destruct h; cbn.
+      repeat match goal with |- _ /\ _ => split end; auto. unfold lenN; cbn; lia.
+    - destruct (settle_one target w d) as [w2 [x|e]] eqn:E1; [|inversion H].
+      destruct (settle_one_ok _ _ _ _ _ _ _ E1 Hfr Hh) as (ops & st' & e & Hts & _).
+      destruct Hts as (Ha & Hr & (p & Hp & Hops) & Hel & Het & Hfr2 & Hh2 & Hframe & Hst & Hhd).
+      destruct (IH _ _ _ _ _ _ H Hfr2 Hh2)
+        as (fr1 & extra & B1 & B2 & B3 & B4 & B5 & B6 & B7 & B8 & B9 & B10).
+      cbn [f_init f_state f_tick h_init h_entries] in *.
+      exists fr1, (e :: extra). rewrite <- app_assoc in B2. cbn [app] in B2.
+      assert (Hcoh : coherent target (h_entries h) -> coherent target (h_entries h ++ e :: extra)).
+      { intros Hc. replace (h_entries h ++ e :: extra) with ((h_entries h ++ [e]) ++ extra)
+          by (rewrite <- app_assoc; reflexivity).
+        apply B10. apply coherent_snoc; auto. }
+      repeat match goal with |- _ /\ _ => split end; auto.
+      + rewrite B4. unfold lenN. cbn [length]. lia.
+      + unfold lenN in *. cbn [length]. lia.
+      + cbn [Strand.replay_entries]. rewrite Hp, Hops, Ha, Hr, N.eqb_refl. exact B6.
+      + intros l Hl. destruct (B7 l Hl) as [X1 X2]. destruct (Hframe l Hl) as [Y1 Y2]. split; congruence.
+      + congruence.
+      + congruence.
+  Qed.
+
+  (* a successful loop over the decisions planned from [sim] drives the target's state to the
+     plan's final simulated state *)
+  Lemma settle_follows_plan pol target child aa bm bo ces sfx : forall sim blocked w acc w1 refs fr h,
+    child <> target ->
+    entries_of (snd w) child = Some ces ->
+    (forall e, In e sfx -> e_lane e = child /\ nthN ces (e_tick e) = Some e) ->
+    alookup target (rt_lanes (fst w)) = Some fr -> f_state fr = sim ->
+    alookup target (pv_lanes (snd w)) = Some h ->
+    settle_loop target w (plan_rec pol target aa bm bo sim blocked sfx) acc = (w1, Ok refs) ->
+    exists fr1, alookup target (rt_lanes (fst w1)) = Some fr1 /\
+                f_state fr1 = plan_sim pol target aa bm bo sim blocked sfx.
+  Proof.
+    induction sfx as [|e sfx IH]; intros sim blocked w acc w1 refs fr h Hne Hces Hpos Hfr Hsim Hh H;
+      cbn [Strand.plan_rec plan_sim] in *.
+    - cbn in H. inversion H; subst. exists fr; auto.
+    - destruct (plan_step pol target aa bm bo sim blocked e) as [[d sim'] b'] eqn:Es.
+      cbn [Strand.settle_loop] in H.
+      destruct (settle_one target w d) as [w2 [x|er]] eqn:E1; [|inversion H].
+      destruct (settle_one_ok _ _ _ _ _ _ _ E1 Hfr Hh) as (ops & st' & e2 & Hts & Hd).
+      destruct Hts as (Ha & Hr & _ & _ & _ & Hfr2 & Hh2 & Hframe & _ & _).
+      assert (Hst : st' = sim').
+      { destruct (plan_step_cases _ _ _ _ _ _ _ _ _ _ _ Es)
+          as [(p & cand & rv & Hb & Hp & Hap & Hdd & Hs & Hb' & Hov)|(Hs & Hb' & Ht)].
+        - subst d. cbn [fst snd e_ref] in Hd. destruct Hd as (es & se & p' & He1 & He2 & He3 & Hops).
+          destruct (Hpos e (or_introl eq_refl)) as [Hl Hn].
+          rewrite Hl, Hces in He1. inversion He1; subst es. rewrite Hn in He2. inversion He2; subst se.
+          rewrite Hp in He3. inversion He3; subst p'. subst ops. rewrite Hsim, Hap in Ha.
+          inversion Ha; subst. reflexivity.
+        - assert (ops = []) by (destruct d; auto; cbn in Ht; congruence).
+          subst ops. cbn in Ha. inversion Ha; subst. congruence. }
+      subst st'.
+      eapply (IH sim' b' w2); eauto.
+      unfold entries_of in *. destruct (Hframe child Hne) as [_ X]. rewrite X. exact Hces.
+      intros e0 Hin; apply Hpos; right; exact Hin.
+  Qed.
+
+
+  (* ---------------------------------------------------------------- plan and report, unpacked *)
+  Lemma frontier_matches_ok rt pv l t :
+    frontier_matches rt pv l = Ok t ->
+    exists fr es, alookup l (rt_lanes rt) = Some fr /\ entries_of pv l = Some es /\ f_tick fr = lenN es /\ t = f_tick fr.
+  Proof.
+    unfold frontier_matches. destruct (alookup l (rt_lanes rt)) as [fr|]; [|discriminate].
+    destruct (entries_of pv l) as [es|]; [|discriminate].
+    destruct (N.eqb (f_tick fr) (lenN es)) eqn:E; [|discriminate].
+    intros H; inversion H; subst. apply N.eqb_eq in E. exists fr, es; auto.
+  Qed.
+
+  Definition at_anchor_of (rp : report) : bool := match rp_reval rp with AtAnchor => true | _ => false end.
+  Definition base_moved_of (s : strand) (tick : N) (pes : list entry) : bool :=
+    negb (N.eqb tick (st_fork_tick s + 1)) ||
+    negb (match tip_ref pes with Some r => pref_eqb r (st_ref s) | None => false end).
+
+  Lemma plan_ok w sid pol pl :
+    plan w sid pol = Ok pl ->
+    exists s tfr pes ces rp,
+      alookup sid (rt_strands (fst w)) = Some s /\ st_shared s = true /\
+      alookup (st_src s) (rt_lanes (fst w)) = Some tfr /\ f_tick tfr = lenN pes /\
+      entries_of (snd w) (st_src s) = Some pes /\ entries_of (snd w) (st_child s) = Some ces /\
+      live_basis_report (snd w) s = Ok rp /\
+      pl = mkPlan sid (st_src s) (st_ref s) rp
+                  (plan_rec pol (st_src s) (at_anchor_of rp) (base_moved_of s (f_tick tfr) pes)
+                            (basis_overlap_slots rp) (f_state tfr) None (skipnN (st_fork_tick s + 1) ces)).
+  Proof.
+    destruct w as [rt pv]. unfold Strand.plan. cbn [fst snd].
+    destruct (alookup sid (rt_strands rt)) as [s|] eqn:Es; [|discriminate].
+    destruct (st_shared s) eqn:Esh; cbn [negb]; [|discriminate].
+    destruct (frontier_matches rt pv (st_src s)) as [tt|] eqn:Ef1; [|discriminate].
+    destruct (frontier_matches rt pv (st_child s)) as [ct|] eqn:Ef2; [|discriminate].
+    destruct (live_basis_report pv s) as [rp|] eqn:Er; [|discriminate].
+    destruct (frontier_matches_ok _ _ _ _ Ef1) as (tfr & pes & A1 & A2 & A3 & A4).
+    destruct (frontier_matches_ok _ _ _ _ Ef2) as (cfr & ces & B1 & B2 & B3 & B4).
+    rewrite A1, A2, B2. intros H; inversion H; subst.
+    exists s, tfr, pes, ces, rp. repeat split; auto.
+  Qed.
+
+  Lemma skipnN_all {A} (l : list A) : skipnN (lenN l) l = [].
+  Proof. unfold skipnN, lenN. rewrite Nnat.Nat2N.id. apply skipn_all. Qed.
+
+  Lemma in_patches_of es p : In p (patches_of es) <-> exists e, In e es /\ e_patch e = Some p.
+  Proof.
+    unfold patches_of. rewrite in_flat_map. split.
+    - intros (e & Hin & Hp). exists e. split; [exact Hin|]. destruct (e_patch e) as [p'|]; cbn in Hp; [|contradiction].
+      destruct Hp as [->|[]]; reflexivity.
+    - intros (e & Hin & Hp). exists e. split; [exact Hin|]. rewrite Hp. left; reflexivity.
+  Qed.
+
+  (* the basis report exposes exactly the parent-written slots inside the strand's closed footprint *)
+  Lemma report_overlap pv s rp pes ces x :
+    live_basis_report pv s = Ok rp ->
+    entries_of pv (st_src s) = Some pes -> entries_of pv (st_child s) = Some ces ->
+    memN x (parent_writes (skipnN (st_fork_tick s + 1) pes)) = true ->
+    forall e p, In e (skipnN (st_fork_tick s + 1) ces) -> e_patch e = Some p -> memN x (p_out p) = true ->
+    match basis_overlap_slots rp with Some ovl => memN x ovl = true | None => False end.
+  Proof.
+    unfold live_basis_report. intros H Hp Hc HW e p Hin Hpe Hout. rewrite Hc, Hp in H.
+    destruct (lenN ces <? st_fork_tick s + 1); [discriminate|].
+    destruct (lenN pes <? st_fork_tick s + 1); [discriminate|].
+    set (owned := skipnN (st_fork_tick s + 1) ces) in *.
+    set (moved := skipnN (st_fork_tick s + 1) pes) in *.
+    assert (Hcl : contains_closed owned x = true).
+    { unfold contains_closed. apply orb_true_iff. right. unfold div_writes. rewrite memN_set_of.
+      apply memN_in. apply in_flat_map. exists p. split; [|apply memN_in; exact Hout].
+      apply in_patches_of. exists e; auto. }
+    assert (Hov : In x (overlapping_parent_writes owned moved)).
+    { unfold overlapping_parent_writes. apply filter_In. split; [apply memN_in; exact HW|exact Hcl]. }
+    inversion H; subst rp; clear H. unfold basis_overlap_slots. cbn [rp_reval].
+    destruct (N.eqb (lenN pes) (st_fork_tick s + 1)) eqn:Ea.
+    - apply N.eqb_eq in Ea. subst moved. rewrite <- Ea, skipnN_all in HW. cbn in HW. discriminate.
+    - destruct (overlapping_parent_writes owned moved) as [|o ov] eqn:Eo; [destruct Hov|].
+      apply memN_in; exact Hov.
+  Qed.
+
+  Definition honest_on (W : list slot) (sfx : list entry) : Prop :=
+    forall e p x, In e sfx -> e_patch e = Some p -> In x (patch_writes p) -> memN x W = true -> memN x (p_out p) = true.
+  Definition honest_slots (sfx : list entry) : Prop :=
+    forall e p x, In e sfx -> e_patch e = Some p -> In x (patch_writes p) -> memN x (p_out p) = true.
+
+  Lemma honest_slots_on W sfx : honest_slots sfx -> honest_on W sfx.
+  Proof. intros H e p x Hin Hp Hx _. eapply H; eauto. Qed.
+
+  Lemma coherent_suffix l es n e :
+    coherent l es -> In e (skipnN n es) -> e_lane e = l /\ nthN es (e_tick e) = Some e.
+  Proof.
+    intros Hc Hin. unfold skipnN in Hin.
+    assert (Hin' : In e es).
+    { rewrite <- (firstn_skipn (N.to_nat n) es). apply in_or_app; right; exact Hin. }
+    destruct (In_nth_error _ _ Hin') as [i Hi].
+    assert (Hn : nthN es (N.of_nat i) = Some e) by (unfold nthN; rewrite Nnat.Nat2N.id; exact Hi).
+    destruct (Hc _ _ Hn) as [Hl Ht]. split; [exact Hl|]. rewrite Ht. exact Hn.
+  Qed.
+
+  (* the whole of a successful settlement, as seen from the target lane *)
+  Lemma settle_ok w sid pol w' out :
+    settle w sid pol = (w', Ok out) ->
+    exists s tfr pes ces rp,
+      alookup sid (rt_strands (fst w)) = Some s /\ st_shared s = true /\
+      alookup (st_src s) (rt_lanes (fst w)) = Some tfr /\ f_tick tfr = lenN pes /\
+      entries_of (snd w) (st_src s) = Some pes /\ entries_of (snd w) (st_child s) = Some ces /\
+      live_basis_report (snd w) s = Ok rp /\
+      so_plan out = mkPlan sid (st_src s) (st_ref s) rp
+                  (plan_rec pol (st_src s) (at_anchor_of rp) (base_moved_of s (f_tick tfr) pes)
+                            (basis_overlap_slots rp) (f_state tfr) None (skipnN (st_fork_tick s + 1) ces)) /\
+      (pl_decisions (so_plan out) = [] /\ w' = w \/
+       exists w1 refs pv2,
+         settle_loop (st_src s) w (pl_decisions (so_plan out)) [] = (w1, Ok refs) /\
+         fst w' = fst w1 /\ snd w' = pv2 /\ pv_lanes pv2 = pv_lanes (snd w1)).
+  Proof.
+    unfold Strand.settle. destruct (plan w sid pol) as [pl|e0] eqn:Ep; [|intros H; inversion H].
+    destruct (plan_ok _ _ _ _ Ep) as (s & tfr & pes & ces & rp & A1 & A2 & A3 & A4 & A5 & A6 & A7 & A8).
+    destruct (pl_decisions pl) as [|d ds] eqn:Ed.
+    { intros H; inversion H; subst w' out. cbn [so_plan]. exists s, tfr, pes, ces, rp.
+      repeat split; auto; try (left; split; [exact Ed|reflexivity]). }
+    destruct (checkpoint_for (snd w) (pl_target pl)) as [ck|]; [|intros H; inversion H].
+    destruct (settle_loop (pl_target pl) w (d :: ds) []) as [w1 [refs|e1]] eqn:El; [|intros H; inversion H].
+    destruct (append_shell (snd w1) _) as [pv2|e2] eqn:Esh; [|intros H; inversion H].
+    intros H; inversion H; subst w' out. cbn [so_plan fst snd].
+    exists s, tfr, pes, ces, rp. repeat split; auto. right.
+    exists w1, refs, pv2. rewrite Ed. subst pl. cbn [pl_target] in El. repeat split; auto.
+    unfold append_shell in Esh.
+    destruct (alookup _ (pv_shells (snd w1))) as [old|].
+    - destruct (shell_eqb old _); inversion Esh; reflexivity.
+    - destruct (existsb _ _); inversion Esh; reflexivity.
+  Qed.
+
+  (* never_overwrite *)
+  Lemma never_overwrite_lemma w sid pol w' out s pfr pfr' pes ces x :
+    settle w sid pol = (w', Ok out) ->
+    alookup sid (rt_strands (fst w)) = Some s -> st_child s <> st_src s ->
+    entries_of (snd w) (st_src s) = Some pes -> entries_of (snd w) (st_child s) = Some ces ->
+    coherent (st_child s) ces ->
+    alookup (st_src s) (rt_lanes (fst w)) = Some pfr ->
+    alookup (st_src s) (rt_lanes (fst w')) = Some pfr' ->
+    honest_on (parent_writes (skipnN (st_fork_tick s + 1) pes)) (skipnN (st_fork_tick s + 1) ces) ->
+    memN x (parent_writes (skipnN (st_fork_tick s + 1) pes)) = true ->
+    sget (f_state pfr') x = sget (f_state pfr) x.
+  Proof.
+    intros Hs Hst Hne Hpes Hces Hco Hpfr Hpfr' Hhon HW.
+    destruct (settle_ok _ _ _ _ _ Hs) as (s0 & tfr & pes0 & ces0 & rp & A1 & A2 & A3 & A4 & A5 & A6 & A7 & A8 & A9).
+    rewrite Hst in A1; inversion A1; subst s0.
+    rewrite Hpes in A5; inversion A5; subst pes0. rewrite Hces in A6; inversion A6; subst ces0.
+    rewrite Hpfr in A3; inversion A3; subst tfr.
+    destruct A9 as [[_ Hw]|(w1 & refs & pv2 & Hl & Hf & _ & _)].
+    { subst w'. rewrite Hpfr in Hpfr'. inversion Hpfr'; reflexivity. }
+    rewrite A8 in Hl. cbn [pl_decisions] in Hl.
+    destruct (alookup (st_src s) (pv_lanes (snd w))) as [h|] eqn:Eh.
+    2:{ unfold entries_of in Hpes. rewrite Eh in Hpes. discriminate. }
+    destruct (settle_follows_plan _ _ _ _ _ _ _ _ _ _ _ _ _ _ _ _ Hne Hces
+                (fun e Hin => coherent_suffix _ _ _ _ Hco Hin) Hpfr eq_refl Eh Hl) as (fr1 & Hfr1 & Hsim).
+    rewrite Hf, Hfr1 in Hpfr'. inversion Hpfr'; subst pfr'. rewrite Hsim.
+    apply plan_sim_preserves.
+    - intros e p Hin Hp Hout. eapply report_overlap; eauto.
+    - intros e p Hin Hp Hx. eapply Hhon; eauto.
+  Qed.
+
+  (* import_takes_strand_values *)
+  Lemma import_takes_strand_values_lemma w sid pol w' out s pfr pfr' ces x cst0 cstn :
+    settle w sid pol = (w', Ok out) ->
+    alookup sid (rt_strands (fst w)) = Some s -> st_child s <> st_src s ->
+    entries_of (snd w) (st_child s) = Some ces -> coherent (st_child s) ces ->
+    alookup (st_src s) (rt_lanes (fst w)) = Some pfr ->
+    alookup (st_src s) (rt_lanes (fst w')) = Some pfr' ->
+    sget (f_state pfr) x = sget cst0 x ->
+    apply_entries cst0 (firstn (n_imports (pl_decisions (so_plan out))) (skipnN (st_fork_tick s + 1) ces)) = Some cstn ->
+    sget (f_state pfr') x = sget cstn x.
+  Proof.
+    intros Hs Hst Hne Hces Hco Hpfr Hpfr' Hag Hre.
+    destruct (settle_ok _ _ _ _ _ Hs) as (s0 & tfr & pes0 & ces0 & rp & A1 & A2 & A3 & A4 & A5 & A6 & A7 & A8 & A9).
+    rewrite Hst in A1; inversion A1; subst s0.
+    rewrite Hces in A6; inversion A6; subst ces0.
+    rewrite Hpfr in A3; inversion A3; subst tfr.
+    rewrite A8 in Hre. cbn [pl_decisions] in Hre.
+    destruct A9 as [[Hnil Hw]|(w1 & refs & pv2 & Hl & Hf & _ & _)].
+    { subst w'. rewrite Hpfr in Hpfr'. inversion Hpfr'; subst pfr'.
+      rewrite A8 in Hnil. cbn [pl_decisions] in Hnil. rewrite Hnil in Hre. cbn in Hre.
+      inversion Hre; subst. exact Hag. }
+    rewrite A8 in Hl. cbn [pl_decisions] in Hl.
+    destruct (alookup (st_src s) (pv_lanes (snd w))) as [h|] eqn:Eh.
+    2:{ unfold entries_of in A5. rewrite Eh in A5. discriminate. }
+    destruct (settle_follows_plan _ _ _ _ _ _ _ _ _ _ _ _ _ _ _ _ Hne Hces
+                (fun e Hin => coherent_suffix _ _ _ _ Hco Hin) Hpfr eq_refl Eh Hl) as (fr1 & Hfr1 & Hsim).
+    rewrite Hf, Hfr1 in Hpfr'. inversion Hpfr'; subst pfr'. rewrite Hsim.
+    eapply plan_sim_agrees; eauto.
+  Qed.
+
+  (* a lane whose state came from a fork state by honest patches still agrees with the fork state
+     off the slots those patches declared as written *)
+  Lemma unchanged_off_writes moved : forall st0 st x,
+    apply_entries st0 moved = Some st -> honest_slots moved ->
+    memN x (parent_writes moved) = false -> sget st x = sget st0 x.
+  Proof.
+    induction moved as [|e r IH]; cbn [apply_entries]; intros st0 st x H Hhon HW.
+    - inversion H; reflexivity.
+    - destruct (e_patch e) as [p|] eqn:Ep; [|discriminate].
+      destruct (apply_ops st0 (p_ops p)) as [st1|] eqn:Ea; [|discriminate].
+      assert (Hx : ~ In x (patch_writes p)).
+      { intro Hin. assert (Ho : memN x (p_out p) = true) by (eapply Hhon; [left; reflexivity|exact Ep|exact Hin]).
+        unfold parent_writes in HW. rewrite memN_set_of in HW.
+        assert (memN x (flat_map p_out (patches_of (e :: r))) = true).
+        { apply memN_in. apply in_flat_map. exists p. split; [|apply memN_in; exact Ho].
+          apply in_patches_of. exists e. split; [left; reflexivity|exact Ep]. }
+        congruence. }
+      rewrite (IH st1 st x H).
+      + eapply apply_ops_frame; eauto.
+      + intros e0 p0 y Hin. apply Hhon. right; exact Hin.
+      + unfold parent_writes in *. rewrite memN_set_of in *.
+        destruct (memN x (flat_map p_out (patches_of r))) eqn:E; [|reflexivity].
+        apply memN_in in E. apply in_flat_map in E. destruct E as (p0 & Hp0 & Hx0).
+        apply in_patches_of in Hp0. destruct Hp0 as (e0 & He0 & Hpe0).
+        assert (memN x (flat_map p_out (patches_of (e :: r))) = true).
+        { apply memN_in. apply in_flat_map. exists p0. split; [|exact Hx0].
+          apply in_patches_of. exists e0. split; [right; exact He0|exact Hpe0]. }
+        congruence.
+  Qed.
+
+  (* parent_stays_verifiable *)
+  Lemma parent_stays_verifiable_lemma w sid pol w' out s pfr pes :
+    settle w sid pol = (w', Ok out) ->
+    alookup sid (rt_strands (fst w)) = Some s ->
+    alookup (st_src s) (rt_lanes (fst w)) = Some pfr -> entries_of (snd w) (st_src s) = Some pes ->
+    replay_entries (f_init pfr) pes = Some (f_state pfr) ->
+    exists pfr' pes' extra,
+      alookup (st_src s) (rt_lanes (fst w')) = Some pfr' /\ entries_of (snd w') (st_src s) = Some pes' /\
+      pes' = pes ++ extra /\ lenN extra = lenN (pl_decisions (so_plan out)) /\
+      f_init pfr' = f_init pfr /\ f_tick pfr' = f_tick pfr + lenN extra /\
+      replay_entries (f_init pfr') pes' = Some (f_state pfr').
+  Proof.
+    intros Hs Hst Hpfr Hpes Hre.
+    destruct (settle_ok _ _ _ _ _ Hs) as (s0 & tfr & pes0 & ces0 & rp & A1 & A2 & A3 & A4 & A5 & A6 & A7 & A8 & A9).
+    rewrite Hst in A1; inversion A1; subst s0.
+    destruct A9 as [[Hnil Hw]|(w1 & refs & pv2 & Hl & Hf & Hsn & Hlanes)].
+    { subst w'. exists pfr, pes, []. rewrite app_nil_r, Hnil. repeat split; auto. unfold lenN; cbn; lia. }
+    destruct (alookup (st_src s) (pv_lanes (snd w))) as [h|] eqn:Eh.
+    2:{ unfold entries_of in Hpes. rewrite Eh in Hpes. discriminate. }
+    unfold entries_of in Hpes. rewrite Eh in Hpes. cbn in Hpes. inversion Hpes; subst pes.
+    destruct (settle_loop_ok _ _ _ _ _ _ _ _ Hl Hpfr Eh)
+      as (fr1 & extra & B1 & B2 & B3 & B4 & B5 & B6 & _).
+    exists fr1, (h_entries h ++ extra), extra.
+    rewrite Hf, B1. unfold entries_of. rewrite Hsn, Hlanes, B2. cbn [option_map h_entries].
+    repeat split; auto.
+    rewrite B3. rewrite (replay_entries_app _ _ _ _ Hre). exact B6.
+  Qed.
+
+  (* plan_pure_deterministic: the plan is a function of the strand record, the two frontiers and the
+     two histories only -- whatever else differs between two worlds, the plans are equal *)
+  Lemma plan_frame w1 w2 sid pol :
+    alookup sid (rt_strands (fst w1)) = alookup sid (rt_strands (fst w2)) ->
+    (forall s, alookup sid (rt_strands (fst w1)) = Some s ->
+       alookup (st_src s) (rt_lanes (fst w1)) = alookup (st_src s) (rt_lanes (fst w2)) /\
+       alookup (st_child s) (rt_lanes (fst w1)) = alookup (st_child s) (rt_lanes (fst w2)) /\
+       alookup (st_src s) (pv_lanes (snd w1)) = alookup (st_src s) (pv_lanes (snd w2)) /\
+       alookup (st_child s) (pv_lanes (snd w1)) = alookup (st_child s) (pv_lanes (snd w2))) ->
+    plan w1 sid pol = plan w2 sid pol.
+  Proof.
+    destruct w1 as [rt1 pv1], w2 as [rt2 pv2]. cbn [fst snd]. intros Hs Hl.
+    unfold Strand.plan. rewrite <- Hs. destruct (alookup sid (rt_strands rt1)) as [s|]; [|reflexivity].
+    destruct (Hl s eq_refl) as (L1 & L2 & P1 & P2).
+    unfold frontier_matches, live_basis_report, entries_of. rewrite <- L1, <- L2, <- P1, <- P2. reflexivity.
+  Qed.
+
+
+  (* ---------------------------------------------------------------- coherence is an invariant *)
+  Definition coherent_prov (pv : prov) : Prop :=
+    forall l h, alookup l (pv_lanes pv) = Some h -> coherent l (h_entries h).
+
+  Lemma coherent_init c : coherent_prov (snd (init_world Hroot c)).
+  Proof.
+    intros l h. cbn. destruct (N.eqb l 0); [|discriminate]. intros H; inversion H; subst; cbn.
+    intros i e Hn. unfold nthN in Hn. destruct (N.to_nat i); discriminate.
+  Qed.
+
+  Lemma coherent_tick w hk p w' : coherent_prov (snd w) -> tick w hk p = Ok w' -> coherent_prov (snd w').
+  Proof.
+    intros Hc Ht. destruct (tick_ok _ _ _ _ Ht)
+      as (fr & h & st' & e & A1 & A2 & A3 & A4 & A5 & A6 & A7 & A8 & A9 & A10 & A11 & A12).
+    intros l h' Hl. rewrite A12 in Hl. cbn [pv_lanes] in Hl.
+    destruct (N.eq_dec l (fst hk)) as [->|Hne].
+    - rewrite (alookup_aupdate_same _ _ _ _ A2) in Hl. inversion Hl; subst h'. cbn.
+      apply coherent_snoc; auto; eapply Hc; exact A2.
+    - rewrite alookup_aupdate_other in Hl by exact Hne. eapply Hc; exact Hl.
+  Qed.
+
+  Lemma coherent_fork w q w' : coherent_prov (snd w) -> fork_steps w q = Ok w' -> coherent_prov (snd w').
+  Proof.
+    intros Hc Hf. destruct (fork_steps_ok _ _ _ Hf)
+      as [sfr [h [cst [se [Hsfr [Hh [Hm [Hml [Hms [Hne [Hl1 [Hfa [Hdh [Hse [Hpv Hrt]]]]]]]]]]]]]]].
+    intros l h' Hl. rewrite Hpv in Hl. cbn [pv_lanes] in Hl.
+    destruct (N.eq_dec l (fq_child q)) as [->|Hd].
+    - rewrite (alookup_app_new _ _ _ Hm) in Hl. inversion Hl; subst h'. cbn [h_entries].
+      intros i e Hn. unfold nthN, firstnN in Hn. rewrite nth_error_map in Hn.
+      destruct (nth_error (firstn (N.to_nat (fq_tick q + 1)) (h_entries h)) (N.to_nat i)) as [e0|] eqn:E0;
+        cbn in Hn; [|discriminate].
+      inversion Hn; subst e. cbn. split; [reflexivity|].
+      assert (Hin : nth_error (h_entries h) (N.to_nat i) = Some e0).
+      { destruct (Nat.lt_ge_cases (N.to_nat i) (N.to_nat (fq_tick q + 1))) as [Hlt|Hge].
+        - rewrite nth_error_firstn_lt in E0 by exact Hlt. exact E0.
+        - assert (nth_error (firstn (N.to_nat (fq_tick q + 1)) (h_entries h)) (N.to_nat i) = None).
+          { apply nth_error_None. rewrite firstn_length. lia. }
+          congruence. }
+      destruct (Hc _ _ Hh i e0 Hin) as [_ Ht]. exact Ht.
+    - rewrite alookup_app_old in Hl by exact Hd. eapply Hc; exact Hl.
+  Qed.
+
+  Lemma coherent_settle w sid pol w' out :
+    coherent_prov (snd w) -> settle w sid pol = (w', Ok out) -> coherent_prov (snd w').
+  Proof.
+    intros Hc Hs.
+    destruct (settle_ok _ _ _ _ _ Hs) as (s & tfr & pes & ces & rp & A1 & A2 & A3 & A4 & A5 & A6 & A7 & A8 & A9).
+    destruct A9 as [[_ Hw]|(w1 & refs & pv2 & Hl & Hf & Hsn & Hlanes)]; [subst; exact Hc|].
+    destruct (alookup (st_src s) (pv_lanes (snd w))) as [h|] eqn:Eh.
+    2:{ unfold entries_of in A5. rewrite Eh in A5. discriminate. }
+    destruct (settle_loop_ok _ _ _ _ _ _ _ _ Hl A3 Eh)
+      as (fr1 & extra & B1 & B2 & B3 & B4 & B5 & B6 & B7 & B8 & B9 & B10).
+    intros l h' Hl'. rewrite Hsn, Hlanes in Hl'.
+    destruct (N.eq_dec l (st_src s)) as [->|Hd].
+    - rewrite B2 in Hl'. inversion Hl'; subst h'. cbn. apply B10. eapply Hc; exact Eh.
+    - destruct (B7 l Hd) as [_ X]. rewrite X in Hl'. eapply Hc; exact Hl'.
+  Qed.
+
+  Lemma coherent_preserved w :
+    coherent_prov (snd w) ->
+    (forall hk p w', tick w hk p = Ok w' -> coherent_prov (snd w')) /\
+    (forall q w', fork_steps w q = Ok w' -> coherent_prov (snd w')) /\
+    (forall sid pol w' out, settle w sid pol = (w', Ok out) -> coherent_prov (snd w')).
+  Proof.
+    intros H. split; [|split].
+    - intros; eapply coherent_tick; eauto.
+    - intros; eapply coherent_fork; eauto.
+    - intros; eapply coherent_settle; eauto.
+  Qed.
+
 End WithHash.
+
+(* ------------------------------------------------------------------ decidable versions (for examples) *)
+Definition honest_slotsb (sfx : list entry) : bool :=
+  forallb (fun e => match e_patch e with
+                    | Some p => forallb (fun x => memN x (p_out p)) (patch_writes p)
+                    | None => true
+                    end) sfx.
+
+Lemma honest_slotsb_spec sfx : honest_slotsb sfx = true -> honest_slots sfx.
+Proof.
+  unfold honest_slotsb, honest_slots. rewrite forallb_forall. intros H e p x Hin Hp Hx.
+  specialize (H e Hin). rewrite Hp in H. rewrite forallb_forall in H. apply H; exact Hx.
+Qed.
+
+Fixpoint coherentb_from (l : lane) (i : N) (es : list entry) : bool :=
+  match es with
+  | [] => true
+  | e :: r => N.eqb (e_lane e) l && N.eqb (e_tick e) i && coherentb_from l (i + 1) r
+  end.
+
+Lemma coherentb_from_spec l es : forall i0, coherentb_from l i0 es = true ->
+  forall n e, nth_error es n = Some e -> e_lane e = l /\ e_tick e = i0 + N.of_nat n.
+Proof.
+  induction es as [|e0 r IH]; intros i0 H n e Hn; [destruct n; discriminate|].
+  cbn in H. apply andb_true_iff in H. destruct H as [H H3]. apply andb_true_iff in H. destruct H as [H1 H2].
+  apply N.eqb_eq in H1. apply N.eqb_eq in H2.
+  destruct n as [|n]; cbn in Hn.
+  - inversion Hn; subst. split; [reflexivity|]. cbn. lia.
+  - destruct (IH _ H3 n e Hn) as [A B]. split; [exact A|]. rewrite B. lia.
+Qed.
+
+Lemma coherentb_spec l es : coherentb_from l 0 es = true -> coherent l es.
+Proof.
+  intros H i e Hn. unfold nthN in Hn. destruct (coherentb_from_spec l es 0 H _ _ Hn) as [A B].
+  split; [exact A|]. rewrite B. cbn. apply Nnat.N2Nat.id.
+Qed.
+
+Lemma alookup_in {A} k (a : A) l : alookup k l = Some a -> In (k, a) l.
+Proof.
+  induction l as [|[k1 a1] r IH]; cbn; [discriminate|].
+  destruct (N.eqb k k1) eqn:E; intros H.
+  - apply N.eqb_eq in E; subst. inversion H; subst. left; reflexivity.
+  - right; auto.
+Qed.
+
+Definition wf_strandsb (rt : runtime) : bool :=
+  forallb (fun ks : N * strand =>
+             negb (N.eqb (st_child (snd ks)) (st_src (snd ks))) &&
+             forallb (fun hk : hkey => N.eqb (fst hk) (st_child (snd ks))) (st_heads (snd ks)))
+          (rt_strands rt).
+
+Lemma wf_strandsb_spec rt : wf_strandsb rt = true -> wf_strands rt.
+Proof.
+  unfold wf_strandsb, wf_strands. rewrite forallb_forall. intros H sid s Hs.
+  specialize (H _ (alookup_in _ _ _ Hs)). cbn in H. apply andb_true_iff in H. destruct H as [H1 H2].
+  split.
+  - apply N.eqb_neq. destruct (N.eqb (st_child s) (st_src s)); [discriminate|reflexivity].
+  - intros hk Hin. rewrite forallb_forall in H2. apply N.eqb_eq. apply H2; exact Hin.
+Qed.
+
+Definition coherent_provb (pv : prov) : bool :=
+  forallb (fun lh : lane * history => coherentb_from (fst lh) 0 (h_entries (snd lh))) (pv_lanes pv).
+
+Lemma coherent_provb_spec pv : coherent_provb pv = true -> coherent_prov pv.
+Proof.
+  unfold coherent_provb, coherent_prov. rewrite forallb_forall. intros H l h Hl.
+  apply coherentb_spec. exact (H _ (alookup_in _ _ _ Hl)).
+Qed.
